@@ -327,7 +327,7 @@ template <class K>
 void fget_impl(const mc::Params& P) {
   typedef typename K::R R;
   typedef dispenso::Future<R> Fut;
-  std::string sched = P.s("sched", "pool");
+  std::string sched = alt(P, "sched", "pool");
   long n = P("n", 1), pol = alt_num(P, "pol", 2);
   std::string pa = P.s("a", "g"), pb = P.s("b", "cw"), pc = P.s("c", "d");
   if (P.has("abc")) { // the three programs as one parameter "a.b.c", so that alternatives are picked jointly
@@ -1064,6 +1064,12 @@ void cev_timed_impl(const mc::Params& P) {
     notified.set(1);
     ev.notify();
   });
+  // by=k: a bystander that only takes k scheduling points. The engine offers "spurious futex return" and "timer
+  // fires early" only at steps where some thread is runnable; with notif=never nobody else would be.
+  long by = P("by", 0);
+  if (by > 0) mc::spawn([by] {
+    for (long i = 0; i < by; i++) mc::point();
+  });
   bool r = timed_wait_event(ev, api, d, notified);
   if (notif == "before") MC_CHECK(r || d > 0, "harness: unreachable"); // (no demand: documented only as 'whichever is first')
   mc::join_all();
@@ -1149,6 +1155,11 @@ void fut_timed_impl(const mc::Params& P) {
         manual.run();
       });
     }
+    long by = P("by", 0);
+    if (by > 0) gate.spawn([&c, by] { // bystander: see cev_timed
+      if (c.hold) mc::block_until([&] { return c.started.get() == 1; });
+      for (long i = 0; i < by; i++) mc::point();
+    });
     if (w2) {
       gate.spawn([&] {
         dispenso::Future<int> mine(f);
